@@ -124,7 +124,8 @@ theorem combine_exact_partial (cfg : Cfg) (ctx : Ctx) (env : Env) (call : String
     runRules env call pkt (rs ++ rest) mark =
       if clausesMatch env pkt mark m then actionOutcome cfg env call pkt rest mark act
       else runRules env call pkt rest mark :=
-  combine_exact cfg ctx env call pkt action act m rs rest mark hact hrs hA hP hD hmA hmP hmD
+  combine_exact cfg ctx env call pkt action act m rs rest mark hact hrs hA hP hD (fun _ => hmA) (fun _ => hmP)
+    (fun _ => hmD)
 
 /-- `CalculateRuleMatch`: for a rule it can render in one netfilter rule (what is left after the
 blocks), the clause list matches exactly when the CIDR + remaining criteria of the reference
@@ -155,7 +156,8 @@ theorem render_exact_partial (cfg : Cfg) (ctx : Ctx) (env : Env) (call : String 
       runRules env call pkt (rs ++ rest) mark =
         if ruleMatches env setName r pkt then actionOutcome cfg env call pkt rest mark' act
         else runRules env call pkt rest mark' :=
-  render_exact_le2 cfg ctx env call pkt setName r rest mark act mo henv hi hpos hact hmA hmP hmD
+  render_exact_le2 cfg ctx env call pkt setName r rest mark act mo henv hi hpos hact (fun _ => hmA) (fun _ => hmP)
+    (fun _ => hmD)
 
 /-! ### non-vacuity -/
 
